@@ -41,3 +41,19 @@ Theorem c16_policies_agree_when_nothing_is_missing : forall pol fuel p d,
   /\ forall pos, render pol fuel p d <> LErr UndefinedError pos.
 Proof. exact policies_agree_when_nothing_is_missing. Qed.
 Print Assumptions c16_policies_agree_when_nothing_is_missing.
+
+(** The outcome depends on the caller's data only through the variables the
+    program mentions ([roots_b p]: every root name of every path in [p]). *)
+Theorem c16_render_depends_only_on_mentioned_roots : forall pol fuel p d1 d2,
+  (forall r, In r (roots_b p) -> assoc r d1 = assoc r d2) ->
+  render pol fuel p d1 = render pol fuel p d2.
+Proof. exact render_depends_only_on_mentioned_roots. Qed.
+Print Assumptions c16_render_depends_only_on_mentioned_roots.
+
+(** Deleting a variable the program never mentions is invisible under every
+    policy (in particular it cannot make a strict render raise). *)
+Theorem c16_deleting_unused_data_is_invisible : forall pol fuel p d x,
+  ~ In x (roots_b p) ->
+  render pol fuel p (remove_key x d) = render pol fuel p d.
+Proof. exact deleting_unused_data_is_invisible. Qed.
+Print Assumptions c16_deleting_unused_data_is_invisible.
